@@ -49,7 +49,7 @@ func (w BufWrite) String() string {
 // bufferWrites lists, in program order, the appending method calls on the
 // bytes.Buffer cell buf within fn, each with the branch facts that hold at it
 // but not at the first write (i.e. the guards inside the payload assembly).
-func (c *Ctx) bufferWrites(fn *ssa.Function, buf ssa.Value) []BufWrite {
+func (c *Ctx) bufferWrites(fn *ssa.Function, buf ssa.Value, env map[ssa.Value]*X) []BufWrite {
 	var ws []BufWrite
 	for _, b := range fn.DomPreorder() {
 		for _, in := range b.Instrs {
@@ -70,19 +70,24 @@ func (c *Ctx) bufferWrites(fn *ssa.Function, buf ssa.Value) []BufWrite {
 			if m == "" {
 				continue
 			}
-			ws = append(ws, BufWrite{Method: m, Arg: x.Args[1], In: in})
+			ws = append(ws, BufWrite{Method: m, Arg: subst(x.Args[1], env), In: in})
 		}
 	}
 	if len(ws) == 0 {
 		return nil
 	}
+	sf := func(f Fact) string {
+		g := f
+		g.Cond = subst(f.Cond, env)
+		return factString(g)
+	}
 	base := map[string]bool{}
 	for _, f := range c.FactsAt(ws[0].In.Block()) {
-		base[factString(f)] = true
+		base[sf(f)] = true
 	}
 	for i := range ws {
 		for _, f := range c.FactsAt(ws[i].In.Block()) {
-			if s := factString(f); !base[s] {
+			if s := sf(f); !base[s] {
 				ws[i].Guards = append(ws[i].Guards, s)
 			}
 		}
@@ -101,6 +106,10 @@ func factString(f Fact) string {
 // payloadWrites resolves the bytes expression handed to Sign/Verify to the
 // write sequence of the buffer it comes from.
 func (c *Ctx) payloadWrites(fn *ssa.Function, data *X) ([]BufWrite, string) {
+	return c.payloadWritesEnv(fn, data, nil)
+}
+
+func (c *Ctx) payloadWritesEnv(fn *ssa.Function, data *X, env map[ssa.Value]*X) ([]BufWrite, string) {
 	b, ok := Match(Call("bytes.Buffer).Bytes", Bind("buf")), data)
 	if !ok {
 		// one level of wrapper: a helper of this repository whose single
@@ -113,7 +122,7 @@ func (c *Ctx) payloadWrites(fn *ssa.Function, data *X) ([]BufWrite, string) {
 			if callee := call.Call.StaticCallee(); callee != nil && len(callee.Blocks) > 0 && callee.Pkg == fn.Pkg {
 				for _, blk := range callee.Blocks {
 					if ret, isRet := blk.Instrs[len(blk.Instrs)-1].(*ssa.Return); isRet && len(ret.Results) > 0 {
-						if ws, _ := c.payloadWrites(callee, c.RetX(ret, 0)); ws != nil {
+						if ws, _ := c.payloadWritesEnv(callee, c.RetX(ret, 0), c.callEnv(call, callee, env)); ws != nil {
 							return ws, ""
 						}
 					}
@@ -126,7 +135,7 @@ func (c *Ctx) payloadWrites(fn *ssa.Function, data *X) ([]BufWrite, string) {
 	if _, isAlloc := buf.V.(*ssa.Alloc); !isAlloc {
 		return nil, "payload buffer is not a local of this function: " + buf.String()
 	}
-	ws := c.bufferWrites(fn, buf.V)
+	ws := c.bufferWrites(fn, buf.V, env)
 	if len(ws) == 0 {
 		return nil, "no writes to the payload buffer found"
 	}
